@@ -4,6 +4,8 @@
 package linkedbuffer
 
 //@ package linkedbuffer
+// lock discipline (B1): a chunk belongs to one queues.Queue and is only touched under that queue's mutex
+//@ type Chunk: guarded_by any queues.Queue.mx: Data, NextWriteIndex, NextReadIndex, Next
 
 // Representation invariant of a chunk: read index <= write index <= capacity, the slice is used at full length
 // and starts at offset 0 of a backing array of its own.
@@ -19,23 +21,28 @@ package linkedbuffer
 //@   ensures [shape] len(result.Data) == capacity && cap(result.Data) == capacity && off(result.Data) == 0
 
 //@ func Chunk.Len
+//@   holds any queues.Queue.mx r
 //@   props C04 C17
 //@   requires c.NextReadIndex <= c.NextWriteIndex && 0 <= c.NextReadIndex
 //@   ensures result == c.NextWriteIndex - c.NextReadIndex
 
 //@ func Chunk.Cap
+//@   holds any queues.Queue.mx r
 //@   props C04
 //@   ensures result == cap(c.Data)
 
 //@ func Chunk.IsFull
+//@   holds any queues.Queue.mx r
 //@   props C04 C01
 //@   ensures result == (c.NextWriteIndex >= cap(c.Data))
 
 //@ func Chunk.IsEmpty
+//@   holds any queues.Queue.mx r
 //@   props C04 C01
 //@   ensures result == (c.NextReadIndex >= c.NextWriteIndex)
 
 //@ func Chunk.Push
+//@   holds any queues.Queue.mx
 //@   props C04 C01
 //@   requires RI_Chunk(c)
 //@   modifies c.NextWriteIndex, c.Data[*]
@@ -47,6 +54,7 @@ package linkedbuffer
 //@   ensures [ri]    RI_Chunk(c)
 
 //@ func Chunk.Pop
+//@   holds any queues.Queue.mx
 //@   props C04 C01
 //@   requires RI_Chunk(c)
 //@   modifies c.NextReadIndex, c.Data[*]
